@@ -355,6 +355,9 @@ func c03(r *Report) propMeta {
 	r.Rule("C03.R8", "publication order in the end-blocker")
 	r.NotAfter("aggregate-before-expiry", tK+"HandleSigningEndBlock", CallEff("Keeper.AggregatePartialSignatures"), CallEff("Keeper.HandleExpiredSignings"))
 
+	r.Rule("C03.lint", "E8 module lint: no nondeterminism / process-local state in x/tss")
+	r.ModuleLint("module-lint", "tss", 20)
+
 	return propMeta{
 		Decided: []string{
 			"R1 the generic (unbounded-id) Lagrange path multiplies only in big.Int; Lagrange tables: PRIME_FACTORS[k] multiplies out to k with increasing prime bases for k=2..B (B = the literal of checkLagrangeInput), PRECOMPUTED_POWERS[p][i]==p^i with rows longer than v_p(B!), len(counts) > largest prime, B! < 2^63, N = secp256k1 order; the table path is taken only when every id <= B; duplicate ids and absent mid rejected",
@@ -365,6 +368,7 @@ func c03(r *Report) propMeta {
 			"R6 every pkg/tss-typed field of MsgSubmitSignature / MsgSubmitDEs reaches its own type's Validate() from ValidateBasic (the strict 65-byte signature parse, not the prefix-reading R()/S() accessors): what the handler verifies is what the aggregator later parses",
 			"R7 every pkg/tss byte type has exactly one accepted length (Point 33 - compressed only, finding F6 -, Scalar 32, EncSecretShare 48, Signature 65, ComplaintSignature 98): the raw bytes are hashed, a second encoding of the same value would change challenges and symmetric keys",
 			"R8 HandleSigningEndBlock aggregates the fully submitted signings before it expires attempts (expiry deletes the partial signatures of every attempt at its expiry height, including complete ones): shares that all arrived in the expiry block are still published (seed C03-6)",
+			"lint: the determinism lint (incl. writes to memory held by long-lived objects) over everything reachable from the handlers and blockers of x/tss",
 		},
 		Undecided: []string{"the algebra (z_i*G == R_i + c*lambda_i*Y_i for honest shares; any threshold subset reconstructs)", "behaviour of the generic path for ids > 20", "secp256k1/keccak implementations"},
 		Assume:    []string{"go/constant evaluates the table literals exactly", "dcrd secp256k1 and go-ethereum keccak are correct"},
